@@ -52,6 +52,32 @@ def translate(sheets, entry=None):
         Excel.parse = orig
 
 
+class ReusedParser:
+    """One long-lived Parser translating workbook after workbook (in memory); the entry cell is set again only when it differs from
+    the one set before, so the parser keeps working with the Cell object it was given for an earlier workbook."""
+
+    def __init__(self):
+        self.p = mods()['Parser']()
+        self.entry = None
+        self.n = 0
+
+    def translate(self, sheets, entry):
+        m = mods()
+        excel = make_excel(sheets)
+        Excel = m['Excel']
+        orig = Excel.__dict__['parse']
+        Excel.parse = classmethod(lambda cls, path: excel)
+        try:
+            self.n += 1
+            self.p.set_excel_file_path('<memory %d>' % self.n)
+            if entry != self.entry:
+                self.p.set_entrypoint_cell(m['Cell'](*entry))
+                self.entry = entry
+            return self.p.get_translation()
+        finally:
+            Excel.parse = orig
+
+
 def translate_direct(sheets, entry=None):
     """CellTranslator + Context without the facade (no compile check, no conversion of RecursionError)."""
     m = mods()
